@@ -268,7 +268,7 @@ def run(case):
                 opt = ift.optimise_operator(op)
         except _Timeout as exc:
             return bad("optimise_operator did not terminate within %g s   [%s]" % (OPT_TIME_LIMIT, case["e"]),
-                       finding_key="does-not-terminate|%s" % _site(exc), detail=dict(features=feat))
+                       finding_key="does-not-terminate|optimise_operator", detail=dict(features=feat, interrupted_at=_site(exc)))
         except AssertionError as exc:
             # the optimiser's own self-check fired: characterise the damage with the un-checked entry point
             from copy import deepcopy
